@@ -178,6 +178,43 @@ CLAIMED.update({
                   "exhaustive / schedule replay on the implementation validated by TLC trace checking"),
 })
 
+CLAIMED.update({
+    "C01": dict(
+        category="model_checking",
+        text="TLC checks LanceCommit.tla (one action per storage / external-store / lease call of the condput, rename, "
+             "lock, external and unsafe commit handlers and of the reader programs; faults FailNoEffect, LostResponse, "
+             "Crash at every call) for DenseVersions, TargetIsLatestPlusOne, DetachedNeverLatest, NoTornWrite, "
+             "WriteAppliedOnce; TLC-generated schedules are forced onto the real Dataset APIs through a gate object store, "
+             "and every recorded call trace, the fresh reader's versions()/checkout/scan/validate included, is validated "
+             "by TLC against the same actions with all invariants judged on every state.",
+        design_ref="DESIGN.md 2.3, 3.1, 3.2, 5 (C01), Appendix B",
+        note="bounds: 2-3 writers + 1-2 readers, one operation per writer (append/delete/overwrite/restore/detached), "
+             "versions <= 5, fault budgets <= 2; replay covers one schedule per distinct final model state (sampled in the "
+             "quick tier); detached commits only with the conditional-put handler; create races and cleanup not covered; "
+             "trusted: TLC, InMemory object store atomicity, gate bookkeeping",
+        technique="explicit TLA+ protocol model + TLC model check; schedule replay on the implementation; TLC trace validation"),
+    "C02": dict(
+        category="model_checking",
+        text="Same model and binding as C01; decides OneManifestPerVersion, ManifestsImmutable (action property and "
+             "content-hash invariant on every implementation state) and AtMostOneLeaseHolder for racing writers with "
+             "retries, failed calls and lost responses; UnsafeCommitHandler modelled but exempt; sanity runs show that the "
+             "unsafe handler and an expiring lease violate the invariant.",
+        design_ref="DESIGN.md 3.2, 5 (C02)",
+        note="lock handler under the assumption that the lease of a live holder does not expire; scripted lease store; same bounds as C01",
+        technique="explicit TLA+ protocol model + TLC; gated schedule replay; TLC trace validation"),
+    "C10": dict(
+        category="model_checking",
+        text="External-handler families of LanceCommit.tla (staging put, put_if_not_exists, EXT.get recovery branch, "
+             "finalize = copy / put_if_exists / delete, reader repair on latest and on version lookup, onboarding of a "
+             "table written without the store): UniqueContentPerVersion, CommittedNeverLost, ExtEntryResolvable, "
+             "ExtAgreesWithFinal, ReaderRepairs, WriterFinalises under a crash at every call, failed calls and lost "
+             "responses; replayed on ExternalManifestCommitHandler over a scriptable ExternalManifestStore sharing the gate.",
+        design_ref="DESIGN.md 3.2, 5 (C10), 8 #12",
+        note="StaleRead of the external store not modelled; known finding: lost response of put_if_not_exists together "
+             "with a failed EXT.get leaves a dangling store entry (double fault)",
+        technique="explicit TLA+ protocol model + TLC; gated schedule replay with mock external store; TLC trace validation"),
+})
+
 PENDING_REASON = "not yet bound to the implementation by a registered check in this snapshot (see DESIGN.md status table)"
 
 ALL = ["C%02d" % i for i in range(1, 44)]
